@@ -21,7 +21,7 @@ PROPS = {
     "C04": dict(world="seat", quick=40, thorough=420, chunk=8000),
     "C01": dict(world="table", quick=45, thorough=480, chunk=1200),
     "C02": dict(world="table", quick=45, thorough=480, chunk=1200),
-    "C03": dict(world="table", quick=45, thorough=480, chunk=1200),
+    "C03": dict(world="table", worlds=[("table", 0.65), ("seat", 0.35)], quick=50, thorough=480, chunk=1200),
     "C05": dict(world="table", quick=45, thorough=480, chunk=1200),
     "C06": dict(world="table", quick=45, thorough=480, chunk=1200),
     "C07": dict(world="table", quick=45, thorough=480, chunk=1200),
@@ -32,6 +32,9 @@ PROPS = {
     "C13": dict(world="table", quick=45, thorough=480, chunk=1200, level="fault_enumeration"),
     "C14": dict(world="table", quick=45, thorough=480, chunk=1200),
     "C15": dict(world="table", quick=45, thorough=480, chunk=1200),
+    "C18": dict(world="actor", quick=45, thorough=480, chunk=1200),
+    "C19": dict(world="actor", quick=45, thorough=480, chunk=1200),
+    "C20": dict(world="actor", quick=45, thorough=480, chunk=1200),
 }
 
 WORKER_ENV = dict(GODEBUG="randseednop=0", GOMAXPROCS="2")
@@ -175,6 +178,22 @@ class Agg:
         self.wall_ms = 0
         self.configs = {}
         self.discarded = 0
+
+    def merge(self, o):
+        self.runs += o.runs
+        for name in ("stats", "faults", "judged", "probes", "inconc", "panics", "configs"):
+            d, e = getattr(self, name), getattr(o, name)
+            for k, v in e.items():
+                d[k] = d.get(k, 0) + v
+        self.fps |= o.fps
+        self.nontrivial_fps |= o.nontrivial_fps
+        self.samples += o.samples
+        self.violations += o.violations
+        self.infra += o.infra
+        self.sim_ms += o.sim_ms
+        self.wall_ms += o.wall_ms
+        self.discarded += o.discarded
+        return self
 
     def add(self, r, prop):
         self.runs += 1
@@ -491,7 +510,12 @@ def cmd_check(a):
                     log("  (regression corpus) %s: %s" % (vclass(v), v["message"]))
                     rc = 1
         # 2. exploration
-        agg = explore(b, prop, cfg["world"], tier, seed, budget, cfg.get("chunk", 2000), cfg.get("job"))
+        worlds = cfg.get("worlds") or [(cfg["world"], 1.0)]
+        agg = None
+        for (wname, share) in worlds:
+            a1 = explore(b, prop, wname, tier, seed, budget * share, cfg.get("chunk", 2000), cfg.get("job"))
+            log("world %s: %d runs" % (wname, a1.runs))
+            agg = a1 if agg is None else agg.merge(a1)
         if agg.infra:
             for run, msgs in agg.infra[:5]:
                 log("infra problem in run %s: %s" % (run, msgs))
